@@ -37,7 +37,7 @@ int Port::open() {
   History* h = m_hist;
   s->onWrite = [this](const uint8_t* p, size_t n) { onWrite(p, n); };
   s->onRead = [h](const uint8_t* p, size_t n) { h->add(now(), sim::EV_READ).bytes.assign(p, p + n); };
-  s->onPoll = [h](int ret) { h->add(now(), sim::EV_POLL).a = ret; };
+  s->onPoll = [h](int ret, ns_t requested, ns_t elapsed) { sim::Ev& e = h->add(now(), sim::EV_POLL); e.a = ret; e.b = elapsed >= requested ? 1 : 0; };
   s->onClose = [h, s]() { h->add(now(), sim::EV_CLOSE).a = s->fd; };
   int mode = m_bus->cfg.chunkMode;
   if (mode == 1) s->readLimit = [](size_t, size_t) { return static_cast<size_t>(1); };
